@@ -199,7 +199,7 @@ func genHostileFramed(t *rapid.T, tpl *gen.Template) ([]byte, string) {
 			case 4: // cut everything after
 				toks = toks[:pos+1]
 			case 5: // change the value (counts become wrong)
-				toks[pos].Val = rapid.SampledFrom([]string{"0", "1", "2", "5", "", "x", "-1"}).Draw(t, "newVal")
+				toks[pos].Val = rapid.SampledFrom([]string{"0", "1", "2", "5", "", "x", "-1", "-", "+", ".", "-.", "e", "-e1", "Y", "N"}).Draw(t, "newVal")
 			case 6: // empty token
 				toks[pos] = ref.Tok{}
 			case 7: // swap with the neighbour
